@@ -122,7 +122,9 @@ let handle (line : string) : string =
       let isb = dec_bool isb in
       let parse f p = wcparse linux f isb p in
       (try
-        (match pattern_lists linux brace (fun _ p -> p) (fun _ _ p -> Some p) parse (dec_bool tr) isb
+        (match pattern_lists linux brace (fun _ p -> p)
+                 (fun nrm raw p -> match norm_pattern (fun _ -> None) isb nrm raw p with Inl t -> Some t | Inr _ -> None)
+                 parse (dec_bool tr) isb
                  (z_of_int (int_of_string fl)) (z_of_int (int_of_string lim)) (dl pats)
                  (if ex = "none" then None else Some (dl ex)) with
          | Inl (pos, neg) -> "ok " ^ enc_list enc_str pos ^ " " ^ enc_list enc_str neg
@@ -140,6 +142,18 @@ let handle (line : string) : string =
       let pp = parse_ppat ast in
       let ns = if names = "[]" then [] else List.map dec_str (String.split_on_char ',' names) in
       enc_str (punparse pp) ^ " " ^ String.concat "" (List.map (fun nm -> enc_bool (pden (dec_bool lb) (dec_bool ci) (dec_bool dot) (dec_bool gs) (dec_bool gl) (dec_bool mb) pp nm)) ns)
+  | ["norm"; isb; nrm; raw; p; utab] ->
+      (* utab: ';' list of name=hexcp *)
+      let tab = if utab = "[]" then [] else
+        List.map (fun e -> match String.split_on_char '=' e with
+                           | [k; v] -> (dec_str k, n_of_int (int_of_string ("0x" ^ v)))
+                           | _ -> failwith "utab") (String.split_on_char ';' utab) in
+      let uname nm = (try Some (List.assoc nm tab) with Not_found -> None) in
+      (match norm_pattern uname (dec_bool isb) (dec_bool nrm) (dec_bool raw) (dec_str p) with
+       | Inl t -> "ok " ^ enc_str t
+       | Inr NSyntax -> "syntaxerror"
+       | Inr NLookup -> "keyerror"
+       | Inr NValue -> "valueerror")
   | _ -> "badrequest"
 
 let () =
